@@ -312,6 +312,66 @@ def run_schemas(rep, cases, k):
                 break
 
 
+def raw_schemas():
+    """schemas outside the abstract vocabulary: temporal dtypes with bounds (a zero duration included), checks without a
+    registered strategy (filtered by the check itself) that look at the index of the frame"""
+    import pandera as pa
+    z, d1, d3 = pd.Timedelta(0), pd.Timedelta("1D"), pd.Timedelta("3D")
+    t0, t1 = pd.Timestamp("2020-01-01"), pd.Timestamp("2020-01-05")
+    out = []
+    for label, chk in (("td-ge-zero", lambda: pa.Check.ge(z)), ("td-le-zero", lambda: pa.Check.le(z)),
+                       ("td-in-range-from-zero", lambda: pa.Check.in_range(z, d3)), ("td-ge-1d", lambda: pa.Check.ge(d1)),
+                       ("td-gt-zero", lambda: pa.Check.gt(z)), ("td-lt-zero", lambda: pa.Check.lt(z))):
+        out.append((f"series:{label}", lambda chk=chk: pa.SeriesSchema("timedelta64[ns]", chk(), name="a"), lambda d: d))
+        out.append((f"column:{label}", lambda chk=chk: pa.DataFrameSchema({"a": pa.Column("timedelta64[ns]", chk())}), lambda d: d))
+        out.append((f"index:{label}", lambda chk=chk: pa.Index("timedelta64[ns]", chk(), name="a"), lambda d: pd.DataFrame(index=d)))
+    for label, chk in (("dt-ge", lambda: pa.Check.ge(t0)), ("dt-in-range", lambda: pa.Check.in_range(t0, t1)),
+                       ("dt-le", lambda: pa.Check.le(t1))):
+        out.append((f"series:{label}", lambda chk=chk: pa.SeriesSchema("datetime64[ns]", chk(), name="a"), lambda d: d))
+        out.append((f"index:{label}", lambda chk=chk: pa.Index("datetime64[ns]", chk(), name="a"), lambda d: pd.DataFrame(index=d)))
+    ix = lambda: pa.Index(int, pa.Check.in_range(0, 6), name="ix")  # noqa: E731
+    out.append(("frame:df-check-on-index", lambda: pa.DataFrameSchema(
+        {"v": pa.Column(int, pa.Check.in_range(0, 9))}, index=ix(), checks=pa.Check(lambda df: df["v"] >= df.index)), lambda d: d))
+    out.append(("frame:column-check-on-index", lambda: pa.DataFrameSchema(
+        {"v": pa.Column(int, [pa.Check.in_range(0, 9), pa.Check(lambda s_: s_ >= s_.index)])}, index=ix()), lambda d: d))
+    out.append(("frame:df-check-index-sorted", lambda: pa.DataFrameSchema(
+        {"v": pa.Column(int)}, index=pa.Index(int, pa.Check.in_range(0, 20), name="ix"),
+        checks=pa.Check(lambda df: df.index.is_monotonic_increasing)), lambda d: d))
+    return out
+
+
+def run_raw(rep, k):
+    import pandera as pa
+    for label, mk, wrap in raw_schemas():
+        case = {"kind": "raw", "label": label}
+        with warnings.catch_warnings():
+            warnings.simplefilter("ignore")
+            try:
+                S = mk()
+                strat = S.strategy(size=3)
+            except Exception as e:  # noqa: BLE001
+                rep.property_failure(case, f"{label}: strategy() raised {type(e).__name__}: {str(e)[:100]}")
+                continue
+            draws, err = draws_of(strat, k)
+        rep.case(case, nontrivial=True)
+        rep.evaluations += 1
+        rep.count(f"raw:{label.split(':')[0]}:" + ("draws" if draws else "no-draw:" + str(err)))
+        if err not in (None, "Unsatisfiable", "FailedHealthCheck") and not draws:
+            rep.property_failure(case, f"{label}: drawing raised {err}")
+            continue
+        for d in draws:
+            with warnings.catch_warnings():
+                warnings.simplefilter("ignore")
+                try:
+                    S.validate(wrap(d))
+                except (pa.errors.SchemaError, pa.errors.SchemaErrors) as e:
+                    rep.property_failure(case, f"{label}: a drawn example fails its own schema: {str(e)[:150]}")
+                    break
+                except Exception as e:  # noqa: BLE001
+                    rep.property_failure(case, f"{label}: validating a drawn example raised {type(e).__name__}: {str(e)[:100]}")
+                    break
+
+
 COLD = r"""
 import sys, warnings
 warnings.simplefilter("ignore")
@@ -361,6 +421,8 @@ def run(tier, replay=None):
             sentinel_pass(rep)
         elif case.get("kind") == "cold-start":
             cold_start(rep)
+        elif case.get("kind") == "raw":
+            run_raw(rep, 12)
         else:
             run_schemas(rep, [case], 8)
         return rep.finish(rule="replay")
@@ -368,6 +430,7 @@ def run(tier, replay=None):
     cold_start(rep)
     n, k = (110, 4) if tier == "quick" else (1500, 8)
     run_schemas(rep, base_sweep(), 3 * k)
+    run_raw(rep, 3 * k)
     run_schemas(rep, corpus_cases(PROP) + [gen_case(rng) for _ in range(n)], k)
     return rep.finish(
         rule="sentinel strategies for each of the 14 built-in check strategies (chained onto sampled_from([good, bad]) and "
